@@ -5,6 +5,7 @@ import (
 	"fmt"
 	"io"
 	"log"
+	"math"
 	"runtime"
 	"strconv"
 	"strings"
@@ -234,6 +235,10 @@ func (p *parser) parseComparison() *proto.Query_Expression {
 		placeholder = decodePlaceholder(p.next().val)
 		if placeholder < 1 {
 			p.errorf("invalid placeholder %d; must be 1 or greater", placeholder)
+		}
+		// the placeholder number is stored as int32: anything larger would silently wrap around.
+		if placeholder > math.MaxInt32 {
+			p.errorf("invalid placeholder %d; must not be greater than %d", placeholder, math.MaxInt32)
 		}
 	case itemValue:
 		value = decodeString(p.next().val)
